@@ -199,6 +199,9 @@ func (mc *MemCtx) Sel(m *MemNode, obj, off *Term) *Term {
 		}
 	case mObjRange:
 		c := tb.And(tb.Ule(m.obj, obj), tb.Ule(obj, m.limit))
+		if m.obj == m.limit {
+			c = tb.Eq(obj, m.obj) // a single object (a package-level variable)
+		}
 		if c.IsTrue() {
 			r = mc.Sel(m.src, obj, off)
 		} else if c.IsFalse() {
